@@ -115,9 +115,11 @@ def run(ctx):
             obj = {"case": view(c), "cases": [c], "failing_case_indices": idx[:50],
                    "monitor": "holds_C17 (coq/theories/Env/Check.v)"}
             if c["kind"] == "load":
-                what = ("load-time expansion: a loaded value differs from `values substituted, $$ -> $` on %d of %d "
-                        "cases; first: gen=%s disabled=%r %s" % (len(idx), len(cases), c["gen"], c.get("disabled", False),
-                                                                 c.get("load_err", "")))
+                f0 = next((f for f in c["fields"] if f["raw"] != f["obs"] or c.get("disabled")), c["fields"][0])
+                what = ("load-time expansion: a loaded value differs from `values substituted, $$ -> $, nothing when "
+                        "disabled` on %d of %d cases; first: gen=%s disabled=%r e.g. %s %r loaded as %r %s"
+                        % (len(idx), len(cases), c["gen"], c.get("disabled", False), f0["where"], f0["raw"], f0["obs"],
+                           c.get("load_err", "")))
             else:
                 v = view(c)
                 what = ("launch environment: replica %s/%s does not receive its own PC_PROC_NAME/PC_REPLICA_NUM, the "
@@ -125,11 +127,23 @@ def run(ctx):
                         "PC_REPLICA_NUM=%r dir=%r %s"
                         % (c.get("name"), c.get("num"), len(idx), len(cases), c["gen"],
                            v["observed_effective_env"].get("PC_PROC_NAME"),
-                           v["observed_effective_env"].get("PC_REPLICA_NUM"), c.get("obs_dir"), c.get("launch_err", "")))
+                           v["observed_effective_env"].get("PC_REPLICA_NUM"), c.get("obs_dir", ""), c.get("launch_err", "")))
             if key:
                 ctx.known_or_violation(key, obj, what)
             else:
                 ctx.violation(obj, what)
+        # cases that follow neither the model of the repaired code nor the model of the unchanged code, although
+        # the monitor accepts them, are not explained by any listed finding
+        monset = set(bad_mon)
+        unexplained = [i for i in bad_model if i in orig_bad and i not in monset]
+        if unexplained:
+            i = unexplained[0]
+            ctx.violation({"case": view(cases[i]), "cases": [cases[i]], "failing_case_indices": unexplained[:50],
+                           "correspondence": "corr_Env (model_ok, coq/theories/Env/Check.v)",
+                           "theorems_resting_on_it": rep["theorems"]},
+                          "implementation left the model (correspondence corr_Env broken) on %d further cases (first: kind=%s "
+                          "gen=%s) on which the C17 monitor holds" % (len(unexplained), cases[i]["kind"], cases[i]["gen"]),
+                          no_input=True)
     elif bad_model:
         i = bad_model[0]
         ctx.violation({"case": view(cases[i]), "cases": [cases[i]], "failing_case_indices": bad_model[:50],
